@@ -217,6 +217,8 @@ type state struct {
 	isTLS    bool // opts.IsTLS of the route translation (gateway server with a TLS block)
 	// oracle-only switch: evaluate the spec with the deviation of finding F-C12-1 (classification)
 	f1Variant bool
+	// oracle-only switch: F-C12-6 deviation (classification)
+	indexVariant bool
 }
 
 func newState() *state {
